@@ -117,9 +117,18 @@ def next (cbFail : Option Nat) (s : St) (pg : List Coll) : Res :=
   | some n => if n < s'.seen.length then .cbErr (cutAt n s') else advance s' pg.isEmpty
   | none => advance s' pg.isEmpty
 
+/-- insertion sort (structural recursion, so that the kernel can evaluate the examples in Props) -/
+def insertBy (le : Coll → Coll → Bool) (a : Coll) : List Coll → List Coll
+  | [] => [a]
+  | b :: l => if le a b then a :: b :: l else b :: insertBy le a l
+
+def isort (le : Coll → Coll → Bool) : List Coll → List Coll
+  | [] => []
+  | a :: l => insertBy le a (isort le l)
+
 /-- The collections list endpoint: `filters`, `order=modified_at, uuid`, `limit`. -/
 def serve (db : List Coll) (f : Filt) (limit : Nat) : List Coll :=
-  ((db.filter (fun c => decide (f.ok c))).mergeSort kleB).take limit
+  (isort kleB (db.filter (fun c => decide (f.ok c)))).take limit
 
 /-- `items_available` for `count=exact` with filter `modified_at <= t` -/
 def countLE (db : List Coll) (t : Nat) : Nat := (db.filter (fun c => decide (c.time ≤ t))).length
